@@ -63,4 +63,10 @@ CHECKS = {
   "note": "Partial: consumers_finish, per-round completeness and stop_unblocks rest on explored runs (no theorem). Process flavour not scheduled. Trusted: Coq kernel + vm_compute, the hand-written model, scheduler + virtual queue.Queue. No axioms.",
   "design_ref": "DESIGN.md section 5 C17",
  },
+ "C10": {
+  "technique": "Coq proof (source-pulled-once invariant) + vm_compute refutation witnesses for the hang and source-failure clauses + trace validation of the real tee under a deterministic scheduler with attribute-level yield points",
+  "text": "Proved for every number of forks, buffer size, source and interleaving (preemption between any two shared accesses of Fork.__next__): the source is pulled once per element and the shared boxes hold exactly the pulled elements in order. Refuted on the current tree, with witness schedules as theorems that were first observed on the implementation: both forks hang when the first-element path meets a full window (known finding C10-I); with a failing source the pulling fork leaks the source lock, raises before delivering an element it holds and its peers do not see the exception (C10-JK). Tie: every scheduled run of the real code (ok, deadlock or livelock prefix) is replayed event by event in the model; the oracle checks each fork's list and ending, the pull count and the look-ahead bound.",
+  "note": "Partial: fork_prefix and the window bound have no theorem yet (oracle on explored runs); liveness is only refuted. Trusted: Coq kernel + vm_compute, the hand-written model, scheduler + instrumented attributes. No axioms.",
+  "design_ref": "DESIGN.md section 5 C10",
+ },
 }
